@@ -1334,10 +1334,23 @@ def eval_pipeline(facts, term, g, source, env, cap=200):
         t = strip(t)
         if t[0] == "src":
             return iter(source)
+        if t[0] == "agg" and t[1] in ("adt:std::ops::Range::Range",) and len(t[2]) == 2:
+            return iter([("int", k) for k in range(val(t[2][0]), val(t[2][1]))])
         if t[0] != "call":
             raise PipelineError("not a call: %s" % show(t, 1)[:50])
         nm = t[1].split("::")[-1]
         a = t[2]
+        if nm == "new" and "RangeInclusive" in t[1] and len(a) == 2:
+            return iter([("int", k) for k in range(val(a[0]), val(a[1]) + 1)])
+        if nm in ("iter", "into_iter", "cloned", "copied", "by_ref", "deref"):
+            r = go(a[0])
+            return iter(r) if isinstance(r, list) else r
+        if nm == "collect":
+            return list(it.islice(go(a[0]), cap))
+        if nm == "chain":
+            return it.chain(go(a[0]), go(a[1]))
+        if nm == "rev":
+            return iter(list(it.islice(go(a[0]), cap))[::-1])
         if nm == "take":
             return it.islice(go(a[0]), max(0, val(a[1])))
         if nm == "skip":
@@ -1383,6 +1396,8 @@ def eval_pipeline(facts, term, g, source, env, cap=200):
     r = go(term)
     if r == ("panic",):
         return "panic"
+    if isinstance(r, list):
+        return [val(x) for x in r]
     if isinstance(r, tuple) and r and r[0] in ("some", "none"):
         return r
     return val(r)
